@@ -14,6 +14,8 @@
    SUB = (g11 (cov) delta) | (g12 (cov) (subst)) | (g21 (cov) ((g..)..)) | (g31 (cov) ((g..)..))
        | (g41 (cov) ((((in..) out) ...) ...)) | (p11 (cov) ADJ) | (p12 (cov) (ADJ ...))
        | (c1 (cov) (RULES ...)) | (c2 (cov) ((class glyphs) ...) (RULES ...)) | (c3 ((set) ...) ACTS)
+       | (h1 (cov) (CRULES ...)) | (h2 (cov) (bt classes) (in classes) (la classes) (CRULES ...))
+       | (h3 (bt sets) (in sets) (la sets) ACTS)      CRULES = (((backtrack) (input tail) (lookahead) ACTS) ...)
    RULES = (((input tail) ACTS) ...)   ACTS = ((lookup-index sequence-index) ...)
    ADJ = _ | (x y dx) *)
 
@@ -41,8 +43,15 @@ let font_of_sx (x : sx) : font =
 let acts_of_sx x = List.map (fun p -> match p with L [a; b] -> (sx_n a, sx_n b) | _ -> failwith "bad action") (lst x)
 let rules_of_sx x =
   List.map (fun rs -> List.map (fun r -> match r with L [i; a] -> (ns i, acts_of_sx a) | _ -> failwith "bad rule") (lst rs)) (lst x)
+let crules_of_sx x =
+  List.map (fun rs -> List.map (fun r -> match r with
+    | L [b; i; l; a] -> (((ns b, ns i), ns l), acts_of_sx a) | _ -> failwith "bad chain rule") (lst rs)) (lst x)
 let sub_of_sx (x : sx) : subtable =
   match x with
+  | L [A "h1"; cov; rules] -> Chn (Chain1 (ns cov, crules_of_sx rules))
+  | L [A "h2"; cov; b; i; l; rules] ->
+    Chn (Chain2 (ns cov, List.map ns (lst b), List.map ns (lst i), List.map ns (lst l), crules_of_sx rules))
+  | L [A "h3"; b; i; l; acts] -> Chn (Chain3 (List.map ns (lst b), List.map ns (lst i), List.map ns (lst l), acts_of_sx acts))
   | L [A "c1"; cov; rules] -> Ctx (SeqCtx1 (ns cov, rules_of_sx rules))
   | L [A "c2"; cov; cls; rules] -> Ctx (SeqCtx2 (ns cov, List.map ns (lst cls), rules_of_sx rules))
   | L [A "c3"; sets; acts] -> Ctx (SeqCtx3 (List.map ns (lst sets), acts_of_sx acts))
@@ -66,7 +75,13 @@ let lns l = L (List.map an l)
 let sx_of_adj = function None -> A "_" | Some v -> L [az v.v_x; az v.v_y; az v.v_dx]
 let sx_of_acts a = L (List.map (fun (x, y) -> L [an x; an y]) a)
 let sx_of_rules rules = L (List.map (fun rs -> L (List.map (fun (i, a) -> L [lns i; sx_of_acts a]) rs)) rules)
+let sx_of_crules rules =
+  L (List.map (fun rs -> L (List.map (fun (((b, i), l), a) -> L [lns b; lns i; lns l; sx_of_acts a]) rs)) rules)
+let lls x = L (List.map lns x)
 let sx_of_sub = function
+  | Chn (Chain1 (cov, rules)) -> L [A "h1"; lns cov; sx_of_crules rules]
+  | Chn (Chain2 (cov, b, i, l, rules)) -> L [A "h2"; lns cov; lls b; lls i; lls l; sx_of_crules rules]
+  | Chn (Chain3 (b, i, l, acts)) -> L [A "h3"; lls b; lls i; lls l; sx_of_acts acts]
   | Ctx (SeqCtx1 (cov, rules)) -> L [A "c1"; lns cov; sx_of_rules rules]
   | Ctx (SeqCtx2 (cov, cls, rules)) -> L [A "c2"; lns cov; L (List.map lns cls); sx_of_rules rules]
   | Ctx (SeqCtx3 (sets, acts)) -> L [A "c3"; L (List.map lns sets); sx_of_acts acts]
